@@ -6,7 +6,7 @@ open IR
 
 let select_binop op is_signed =
   match op with
-  | Add -> IAdd
+  | Add -> if is_signed then IAddNSW else IAdd
   | Subtract -> ISub
   | Multiply -> IMul
   | Divide -> if is_signed then ISDiv else IUDiv
